@@ -105,17 +105,21 @@ class Case:
         self.reference = reference      # behaviour tuple of the unsplit program
         self.pub_fns = pub_fns or {}    # file -> names that must be external definitions
         self.tag = tag
+        self.structure = None           # generator-level description (for shrinking)
 
     def to_json(self):
         return {"files": self.files, "orders": self.orders, "entropies": self.entropies,
                 "reference": list(self.reference) if self.reference else None,
-                "pub_fns": {k: sorted(v) for k, v in self.pub_fns.items()}, "tag": self.tag}
+                "pub_fns": {k: sorted(v) for k, v in self.pub_fns.items()}, "tag": self.tag,
+                "structure": self.structure}
 
     @staticmethod
     def from_json(d):
         ref = tuple(d["reference"]) if d.get("reference") else None
-        return Case(d["files"], d["orders"], d["entropies"], ref,
-                    {k: set(v) for k, v in (d.get("pub_fns") or {}).items()}, d.get("tag", ""))
+        c = Case(d["files"], d["orders"], d["entropies"], ref,
+                 {k: set(v) for k, v in (d.get("pub_fns") or {}).items()}, d.get("tag", ""))
+        c.structure = d.get("structure")
+        return c
 
 
 def derive_single_file(files, order):
@@ -387,14 +391,24 @@ def build_program_cases(seed, i, tier):
     for s in range(cfg["splits"]):
         sp = pngen.random_split(prog, rng)
         pert = pngen.perturb(sp, rng)
-        files = sp.file_map(rng)
+        item_order = {}
+        for m in range(sp.k):
+            own = [it.name for it in prog.items if sp.assign[it.name] == m]
+            rng.shuffle(own)
+            item_order[str(m)] = own
+        files = pngen.ordered_file_map(sp, item_order)
+        structure = pngen.split_to_json(sp, item_order)
+        structure["extra_files"] = {}
+        structure["packages"] = []
         names = list(sp.files)
         if rng.random() < 0.35:
             files["extra.pn"] = pngen.extra_module(rng)
+            structure["extra_files"]["extra.pn"] = files["extra.pn"]
             names.append("extra.pn")
             pert.append("extra_module")
         if rng.random() < 0.15:
             names.append("core:text")
+            structure["packages"].append("core:text")
             pert.append("core_package")
         orders = sample_orders(names, rng, cfg["orders"])
         entropies = [rng.getrandbits(64) for _ in range(cfg["seeds"])]
@@ -405,6 +419,7 @@ def build_program_cases(seed, i, tier):
                 new = sp.renames.get(m, {}).get(it.name, it.name)
                 pub_fns.setdefault(sp.files[m], set()).add(new)
         case = Case(files, orders, entropies, None, pub_fns, tag="split%d" % s)
+        case.structure = structure
         imports_max = max(len(sp.imports[m]) + len(sp.extra_imports.get(m, [])) for m in range(sp.k))
         out["shape"].append({"k": sp.k, "perturbations": sorted(pert), "max_imports": imports_max,
                              "layout": sp.files[0], "pub": len(sp.pub)})
@@ -419,7 +434,8 @@ def build_program_cases(seed, i, tier):
             norders = [names, list(reversed(names))]
             out["negatives"].append({"files": nfiles, "orders": norders, "entropy": rng.getrandbits(64),
                                      "module_file": mf, "item": n["item"], "kind": n["kind"],
-                                     "reason": n["reason"], "expect_code": n["expect_code"]})
+                                     "reason": n["reason"], "expect_code": n["expect_code"],
+                                     "probe": n["probe"], "structure": structure})
     # histories: this program's first split interleaved with an unrelated program
     for h in range(cfg["histories"]):
         sp, files, _names = splits[h % len(splits)]
@@ -480,120 +496,35 @@ def run_program(args):
 
 
 # ----------------------------------------------------------- minimisation --
-def chunks_of(text):
-    """Top-level chunks: import lines, and blank-line separated items."""
-    parts = []
-    cur = []
-    for line in text.split("\n"):
-        if line.startswith("import "):
-            if cur:
-                parts.append("\n".join(cur))
-                cur = []
-            parts.append(line)
-        elif line == "" and cur and (cur[-1].startswith("}") or cur[-1].endswith(";")):
-            parts.append("\n".join(cur))
-            cur = []
-        elif line != "" or cur:
-            cur.append(line)
-    if cur:
-        parts.append("\n".join(cur))
-    return [p for p in parts if p.strip()]
-
-
-def join_chunks(chunks):
-    return "\n\n".join(chunks) + "\n"
-
-
 def minimise_case(case, cls, wd):
-    """Shrink a failing Case while the same violation class persists. The
-    reference behaviour is re-derived from the reduced modules themselves
-    (imports and `pub` dropped, texts concatenated)."""
-    from fuzzsim import ddmin
-
-    def holds(c):
-        ref = None
-        if cls in ("split_behaviour_mismatch", "split_rejected"):
-            order = [n for n in c.orders[0] if n in c.files]
-            single = derive_single_file(c.files, order)
-            rwd = os.path.join(wd, "ref")
-            fresh_dir(rwd)
-            write_files(rwd, {"main.pn": single})
-            p = parse_run(penne_run(rwd, ["main.pn"], c.entropies[0]))
-            if p["verdict"] != "ok":
-                return False
-            ref = behaviour(p)
-        cc = Case(c.files, c.orders, c.entropies, ref, {}, c.tag)
-        return any(k == cls for k, _ in evaluate_case(cc, os.path.join(wd, "m"), check_artifacts=cls in (
-            "invalid_ir", "nondeterministic_ir", "artifact_missing", "pub_not_external")))
-
-    cur = Case(dict(case.files), [list(o) for o in case.orders], list(case.entropies), case.reference, {}, case.tag)
-    if not holds(cur):
-        return case, False
-    # 1. fewer orders and entropy seeds
-    for field in ("orders", "entropies"):
-        items = getattr(cur, field)
-        keep = 2 if field == "entropies" and cls.startswith("nondeterministic") else 1
-        if cls == "order_dependent_behaviour" and field == "orders":
-            keep = 2
-        if len(items) > keep:
-            def test(sub, field=field):
-                if len(sub) < keep:
-                    return False
-                c2 = Case(cur.files, cur.orders, cur.entropies, None, {}, cur.tag)
-                setattr(c2, field, sub)
-                return holds(c2)
-            setattr(cur, field, ddmin(items, test, max_tests=40))
-    # 2. drop whole files that nobody needs
-    for name in sorted(cur.files):
-        if len(cur.files) <= 1 or name.startswith("core:"):
-            continue
-        files2 = {k: v for k, v in cur.files.items() if k != name}
-        c2 = Case(files2, [[n for n in o if n != name] for o in cur.orders], cur.entropies, None, {}, cur.tag)
-        c2.orders = [o for j, o in enumerate(c2.orders) if o not in c2.orders[:j]]
-        if holds(c2):
-            cur = c2
-    # 3. ddmin over top-level chunks of every file
-    for name in sorted(cur.files):
-        ch = chunks_of(cur.files[name])
-        if len(ch) < 2:
-            continue
-
-        def test(sub, name=name):
-            files2 = dict(cur.files)
-            files2[name] = join_chunks(sub)
-            return holds(Case(files2, cur.orders, cur.entropies, None, {}, cur.tag))
-        ch = ddmin(ch, test, max_tests=120)
-        cur.files[name] = join_chunks(ch)
-    return cur, True
+    import c12min
+    import sys
+    return c12min.shrink_case(sys.modules[__name__], case, cls, wd)
 
 
 def minimise_negative(neg, cls, wd):
+    import c12min
+    import sys
+    return c12min.shrink_negative(sys.modules[__name__], neg, cls, wd)
+
+
+def minimise_history(h, cls, wd):
+    """ddmin over the operations of a history (modules stay as they are)."""
     from fuzzsim import ddmin
+    spec = h["spec"]
 
-    def holds(n):
-        return any(k == cls for k, _ in evaluate_negative(n, os.path.join(wd, "m")))
+    def holds(ops):
+        s2 = dict(spec)
+        s2["ops"] = ops
+        return any(k == cls for k, _ in evaluate_history(s2, os.path.join(wd, "m"), h["entropy"]))
 
-    cur = dict(neg)
-    cur["files"] = dict(neg["files"])
-    if not holds(cur):
-        return neg, False
-    for name in sorted(cur["files"]):
-        ch = chunks_of(cur["files"][name])
-        protect = [c for c in ch if "zz_probe" in c or re.search(r"\b%s\b" % re.escape(neg["item"]), c.split("\n")[0])]
-        rest = [c for c in ch if c not in protect]
-        if len(rest) < 1:
-            continue
-
-        def test(sub, name=name, protect=protect):
-            n2 = dict(cur)
-            n2["files"] = dict(cur["files"])
-            n2["files"][name] = join_chunks([c for c in chunks_of(cur["files"][name]) if c in sub or c in protect])
-            return holds(n2)
-        kept = ddmin(rest, test, max_tests=80) if len(rest) > 1 else rest
-        if len(rest) == 1 and test([]):
-            kept = []
-        cur["files"][name] = join_chunks([c for c in ch if c in kept or c in protect])
-    return cur, True
+    if not holds(spec["ops"]):
+        return h, False
+    ops = ddmin(list(spec["ops"]), holds, max_tests=60)
+    s2 = dict(spec)
+    s2["ops"] = ops
+    used = {(o["g"], o["m"]) for o in ops}
+    return {"spec": s2, "entropy": h["entropy"], "modules_used": sorted(used)}, True
 
 
 def signature_of(cls, v):
@@ -650,14 +581,23 @@ def finding_from(v, i, seed, minimise=True):
         v = dict(v)
         v["negative"] = neg
     else:
-        record["history"] = v["history"]
+        h = v["history"]
+        if minimise:
+            try:
+                h, minimised = minimise_history(h, cls, wd)
+            except HarnessError:
+                pass
+        record["history"] = h
     shutil.rmtree(wd, ignore_errors=True)
     record["minimised"] = minimised
     sig = signature_of(cls, v)
     summary = "%s (program %d, %s): %s" % (cls, i, v["kind"], v["detail"][:500])
     if minimised and v["kind"] == "case":
-        summary += "\n  minimised to %d file(s), %d order(s), %d entropy seed(s)" % (
-            len(record["case"]["files"]), len(record["case"]["orders"]), len(record["case"]["entropies"]))
+        summary += "\n  minimised to %d file(s) with %d item(s), %d order(s), %d entropy seed(s)" % (
+            len(record["case"]["files"]), len((record["case"].get("structure") or {}).get("items", [])),
+            len(record["case"]["orders"]), len(record["case"]["entropies"]))
+    if minimised and v["kind"] == "history":
+        summary += "\n  minimised to %d operation(s)" % len(record["history"]["spec"]["ops"])
     return Finding(PROP, cls, record, signature=sig, summary=summary)
 
 
